@@ -323,6 +323,7 @@ def main(engine_cls):
     ap.add_argument("--selftest-determinism", type=int, default=0,
                     help="run N indices twice (at 4 and at 16 workers) and diff digests")
     ap.add_argument("--dump-keys", action="store_true")
+    ap.add_argument("--dump-viol", help="write every (key, run index, plan) of this exploration to a JSON-lines file (triage aid)")
     ap.add_argument("--plan-of", type=int, default=None, help="print and run the plan of one run index")
     args = ap.parse_args()
     tier = args.tier if args.tier in ("quick", "thorough") else "quick"
@@ -390,6 +391,10 @@ def main(engine_cls):
     by_key = {}
     for key, idx, plan, detail in total["violations"]:
         by_key.setdefault(key, []).append((idx, plan, detail))
+    if args.dump_viol:
+        with open(args.dump_viol, "w") as f:
+            for key, idx, plan, detail in total["violations"]:
+                f.write(json.dumps({"key": key, "idx": idx, "plan": trim(plan, 400)}, default=str) + "\n")
     if args.dump_keys:
         for key in sorted(by_key):
             idx, plan, detail = min(by_key[key], key=lambda t: t[0])
